@@ -168,42 +168,47 @@ def check_property(prop, tier, repo, cfg, seed):
         if kfut:
             results.extend(kfut.result())
 
-    # ---- bounded native companion (witness search; never counted as proof)
-    companion_info = None
-    comp = pcfg.get("companion")
-    if comp:
+    # ---- bounded native companions (stand-ins for code out of the verifiers' reach + witness search; never counted as proof)
+    companion_infos = []
+    comps = pcfg.get("companions") or ([pcfg["companion"]] if pcfg.get("companion") else [])
+    for comp in comps:
         cunits = [r for r in results if r["unit"] in comp["units"]]
         trouble = [r for r in cunits if r["status"] in ("violated", "undecided")]
-        if trouble or tier == "thorough":
-            tests = comp["tests_thorough"] if tier == "thorough" else comp["tests_quick"]
-            cr = native_run.run_companion(repo, comp["file"], tests, seed=seed or 1,
-                                          cases=comp.get("cases_thorough") if tier == "thorough" else comp.get("cases_quick"))
-            companion_info = {"file": comp["file"], "tests": tests, "status": cr["status"], "cases": cr["cases"],
-                              "wall_s": round(cr["wall_s"], 1), "cmd": cr["cmd"], "bound": comp.get("bound", "")}
-            if cr["status"] == "witness":
-                w = cr["witnesses"][0]
-                attached = False
-                for r in trouble:
-                    for fail in r.get("failed", []):
-                        if not fail.get("witness"):
-                            fail["witness"] = w
-                            fail["native_replay"] = "found and replayed natively against the real code by %s (%s)" % (comp["file"], cr["cmd"])
-                            attached = True
-                if not attached:
-                    # no Verus verdict to attach to (unit could not be assembled, or proofs pass while the real code
-                    # disagrees with the reference): the failing input itself is the violation
-                    host = trouble[0] if trouble else (cunits[0] if cunits else None)
-                    if host is not None:
-                        why = host.get("reason") or "all obligations of the contracted functions discharged"
-                        host.setdefault("failed", []).append({
-                            "function": "native_companion", "kind": "failing input found by the bounded native companion (%s)" % why[:200],
-                            "line": None, "col": None, "text": cr["out_tail"][-1500:], "witness": w,
-                            "native_replay": "replayed natively against the real code by %s (%s)" % (comp["file"], cr["cmd"]),
-                            "props": [prop]})
-                        if host["status"] == "undecided":
-                            host["status"] = "violated"
-            elif cr["status"] == "error" and tier == "thorough":
-                print("companion could not run: %s" % cr["out_tail"][-400:], file=sys.stderr)
+        if not (trouble or tier == "thorough" or comp.get("always")):
+            continue
+        tests = comp["tests_thorough"] if tier == "thorough" else comp["tests_quick"]
+        cr = native_run.run_companion(repo, comp["file"], tests, seed=seed or 1,
+                                      cases=comp.get("cases_thorough") if tier == "thorough" else comp.get("cases_quick"),
+                                      stride=None if tier == "thorough" else comp.get("stride_quick"))
+        info = {"file": comp["file"], "tests": tests, "status": cr["status"], "cases": cr["cases"],
+                "wall_s": round(cr["wall_s"], 1), "cmd": cr["cmd"], "bound": comp.get("bound", "")}
+        companion_infos.append(info)
+        if cr["status"] == "witness":
+            # only witnesses of this property's kind count (a companion file serves several properties)
+            ws = [w for w in cr["witnesses"] if ('"kind":"%s"' % prop) in w] or cr["witnesses"]
+            w = ws[0]
+            attached = False
+            for r in trouble:
+                for fail in r.get("failed", []):
+                    if not fail.get("witness"):
+                        fail["witness"] = w
+                        fail["native_replay"] = "found and replayed natively against the real code by %s (%s)" % (comp["file"], cr["cmd"])
+                        attached = True
+            if not attached:
+                # no Verus verdict to attach to (unit could not be assembled, code outside any contract, or proofs pass
+                # while the real code disagrees with the reference): the failing input itself is the violation
+                host = trouble[0] if trouble else (cunits[0] if cunits else (results[0] if results else None))
+                if host is not None:
+                    why = host.get("reason") if trouble else "code outside the contracted functions"
+                    host.setdefault("failed", []).append({
+                        "function": "native_companion", "kind": "failing input found by the bounded native companion %s (%s)" % (comp["file"], (why or "")[:200]),
+                        "line": None, "col": None, "text": cr["out_tail"][-1500:], "witness": w,
+                        "native_replay": "replayed natively against the real code by %s (%s)" % (comp["file"], cr["cmd"]),
+                        "props": [prop]})
+                    if host["status"] == "undecided":
+                        host["status"] = "violated"
+        elif cr["status"] == "error":
+            print("companion %s could not run: %s" % (comp["file"], cr["out_tail"][-400:]), file=sys.stderr)
 
     violations, undecided, known = [], [], []
     obligations = discharged = 0
@@ -315,10 +320,10 @@ def check_property(prop, tier, repo, cfg, seed):
             "functions_under_contract": fn_under_contract,
             "units": per_unit,
             "assumption_scan_total": assumptions_total,
-            "bounded": bounded + ([{"harness": "native companion " + companion_info["file"], "bound": companion_info["bound"],
-                                    "status": companion_info["status"], "cases": companion_info["cases"],
-                                    "what": "real chunker vs reference written from the property statement; witness search only"}]
-                                  if companion_info else []),
+            "bounded": bounded + [{"harness": "native companion %s [%s]" % (ci["file"], ", ".join(ci["tests"])), "bound": ci["bound"],
+                                   "status": ci["status"], "cases": ci["cases"], "wall_s": ci["wall_s"],
+                                   "what": "real code driven natively against a reference written from the property statement; bounded stand-in and witness search, never counted as proved"}
+                                  for ci in companion_infos],
             "samples": samples[:12] or [{"note": "no obligations"}],
             "not_covered": pcfg.get("not_covered", []),
             "obligation_unit": "one obligation = all verification conditions Verus generates for one function or lemma "
